@@ -590,9 +590,39 @@ func runMinMaxSpellings(c *engine.Ctx) {
 	}
 }
 
+// runUnorderedSpellings: multi-part restrictions whose FIRST, middle or last part is reversed, whose
+// parts descend, touch or repeat - at the typedef and at the leaf - for every base type.
+func runUnorderedSpellings(c *engine.Ctx) {
+	for _, base := range []string{"int8", "uint8", "int64", "uint64", "decimal64/2", "string"} {
+		pre := ""
+		if base == "string" {
+			pre = "length:"
+		}
+		for _, d := range []string{"5..3 | 6..10", "0..4 | 8..6", "0..2 | 5..3 | 7..9", "6..10 | 0..4", "0..4 | 4..8", "1 | 1", "3..2", "0..4 | 6..10", "0..2 | 4..5 | 7..9", "10..0"} {
+			for _, where := range []int{0, 1} {
+				ch := chain{Base: base, Levels: []level{{}, {}}}
+				ch.Levels[where].Restr = pre + d
+				id := "unordered:" + ch.yang()
+				if !c.Owns(id) || !c.Case(id) {
+					continue
+				}
+				c.Add("states", 1)
+				c.Add("transitions", 2)
+				c.Nontrivial()
+				vs, outcome := check(ch)
+				c.Outcome("unordered:" + outcome)
+				for _, v := range vs {
+					c.Report(v)
+				}
+			}
+		}
+	}
+}
+
 func run(c *engine.Ctx) {
 	runFamilies(c)
 	runMinMaxSpellings(c)
+	runUnorderedSpellings(c)
 	runDefaultChains(c)
 	bases := []string{"int8", "uint8", "int64", "uint64", "decimal64/1", "decimal64/2", "decimal64/18", "string"}
 	nTypedefs := 2
